@@ -2263,8 +2263,9 @@ def _sensor_tactile(
   tang1 = wp.vec3(0.0, 0.0, 0.0)
   tang2 = wp.vec3(0.0, 0.0, 0.0)
   if has_frame:
-    tang1 = math.rot_vec_quat(mesh_normal[offset + 1], quat)
-    tang2 = math.rot_vec_quat(mesh_normal[offset + 2], quat)
+    # mesh data (vertices above, frames here) live in the geom frame: tangents in the global frame
+    tang1 = geom_xmat_in[worldid, geom_id] @ mesh_normal[offset + 1]
+    tang2 = geom_xmat_in[worldid, geom_id] @ mesh_normal[offset + 2]
 
   for g in range(MJ_MAXCONPAIR):
     if g >= geom_count:
